@@ -20,6 +20,7 @@ import (
 	"mcverif/props/c15"
 	"mcverif/props/c16"
 	"mcverif/props/c18"
+	"mcverif/props/store"
 )
 
 var Registry = map[string]engine.Spec{
@@ -40,6 +41,8 @@ var Registry = map[string]engine.Spec{
 	"C15": c15.Spec,
 	"C16": c16.Spec,
 	"C18": c18.Spec,
+	"C19": store.SpecC19,
+	"C20": store.SpecC20,
 }
 
 // Aux are helper entry points run in fresh child processes by some checks.
